@@ -5,6 +5,11 @@ from driver import *
 import gspec
 
 
+class ReplayDone(Exception):
+    def __init__(self, failed):
+        self.failed = failed
+
+
 class Case:
     def __init__(self, cid, variants, harness_rel, files, harness_names, tags=(), peg="", meta=None):
         self.id = cid
@@ -20,6 +25,11 @@ class Case:
 
 def prepare(w, cases):
     """Generate all parsers (in parallel) and write harness packages."""
+    rdoc = os.environ.get("VERIF_REPLAY_DOC")
+    if rdoc:
+        with open(rdoc) as f:
+            want = json.load(f)["case"]
+        cases[:] = [c for c in cases if c.id == want]
     jobs = []
     for c in cases:
         for rel, peg, flags in c.variants:
@@ -46,6 +56,18 @@ def explore(w, report, cases, prop, harness_re, nmax, per_job_timeout, family, n
     """Run the engine over the cases' harness packages; triage counterexamples.
     Returns aggregate stats."""
     good = [c for c in cases if not c.gen_errors]
+    rdoc = os.environ.get("VERIF_REPLAY_DOC")
+    if rdoc:
+        with open(rdoc) as f:
+            doc = json.load(f)
+        for c in good:
+            if c.id == doc["case"]:
+                nat = native_run(w, c.harness_rel, doc["harness"], doc["arg"], doc["model"])
+                print(nat["raw"])
+                print("REPLAY case=%s input=%r fails=%s panic=%s timeout=%s" % (c.id, bytes(doc.get("input", [])), nat["fails"], nat["panic"], nat["timeout"]))
+                report.replayed = 1 if (nat["fails"] or nat["panic"] or nat["timeout"]) else 0
+                raise ReplayDone(report.replayed)
+        raise Inconclusive("replay: case %s not found in the catalogue of %s" % (doc["case"], prop))
     for c in cases:
         for rel, flags, code, err in c.gen_errors:
             report.inconclusive.append("%s: pigeon %s rejected the catalogue grammar (exit %s): %s" % (c.id, " ".join(flags), code, err))
